@@ -55,12 +55,13 @@ func (s *session) Serve() {
 		close(writeDone)
 	}()
 
-	if eof := s.loopRead(); eof {
+	if drain := s.loopRead(); drain {
 		// The peer may have shut down its sending side only (e.g. a pipeline
-		// piped into nc) and still be reading, the requests which have been
-		// read are answered before the connection is closed. The writer
-		// returns once it has written the last response, or when the write
-		// fails since the peer has gone.
+		// piped into nc) and still be reading, or it has sent something the
+		// decoder rejects: the requests which have been read are answered
+		// before the connection is closed. The writer returns once it has
+		// written the last response, or when the write fails since the peer
+		// has gone.
 		close(s.processingReqs)
 		<-writeDone
 	}
@@ -82,16 +83,28 @@ func (s *session) doQuit() {
 	})
 }
 
-// loopRead reads the requests until the connection or the session is closed.
-// It returns true if the peer has finished sending cleanly.
-func (s *session) loopRead() (eof bool) {
+// loopRead reads the requests until nothing more can be read from the
+// connection or the session is closed. It returns true if the requests which
+// have been read should still be answered: the peer has finished sending, or
+// what it sent can't be decoded.
+func (s *session) loopRead() (drain bool) {
 	for {
 		v, err := s.dec.Decode()
 		if err != nil {
 			if err != io.EOF {
 				s.p.logger.Warnf("loop read exit: %v", err)
 			}
-			return err == io.EOF
+			select {
+			case <-s.quit:
+				// the session is being closed.
+				return false
+			default:
+			}
+			if _, ok := err.(net.Error); ok {
+				// the connection is broken, nobody reads the responses.
+				return false
+			}
+			return true
 		}
 
 		req := newRawRequest(v)
